@@ -383,6 +383,14 @@ func checkC17(r *Run) {
 	c17EmptyBatch(r)
 	c17SessionSubstitutes(r)
 	c17ClientNext(r)
+	// the client obtains exactly the server's entries: DecodeDir accepts every record its steps accept
+	if dd := p.Fn("p9p:DecodeDir"); dd != nil {
+		nf := 0
+		for _, f := range p.withHelpers(dd, 1) {
+			nf += onlyForwardedErrors(r, f, "decode-dir", "a well-formed directory entry can be refused")
+		}
+		r.Floor("decode-dir", nf, 2, "error returns of DecodeDir")
+	}
 }
 
 // edgeCond: the branch condition (if any) holding on the edge pred→succ.
